@@ -519,8 +519,8 @@ expand_home.hints = {'loop-0-body-entry': 'assert("~"@.len() == 1 && "~"@[0] == 
                                           '    if a[0] == \'~\' { assert(a.subrange(0, 1) =~= "~"@); } else { assert(a.subrange(0, 1)[0] == a[0]); } } }'}
 
 # expand_env: which words may change, what happens to the tag, and (C13) that operator characters from a value become data
-written = Fn(S, 'has_written_redirection', ret='r', props=('C13',),
-    ensures=[('C13+C10.written_redirection.only_what_stands_outside_the_command_substitutions_of_the_word', 'r == written_redir(word@)')],
+written = Fn(S, 'has_written_redirection', ret='r', props=('C13', 'C04'),
+    ensures=[('C04+C13+C10.written_redirection.only_what_stands_outside_the_command_substitutions_of_the_word', 'r == written_redir(word@)')],
     loops={0: Loop(invariant=[('C13.inv.written.rest', 'written_redir(rest@) == written_redir(word@)')], decreases='rest@.len()')},
 )
 expand_env = Fn(S, 'expand_env', rewrites=TYRW, props=('C10',),
